@@ -143,10 +143,19 @@ def run(ctx, chk):
             try:
                 outs = {}
                 casts = set()
+                used_bs = False
                 for target in (0, 1, 2, None):
                     r, h = lookx.lookup(ctx, sty, fname, static, target)
                     outs[target] = r
                     casts |= h.casts
+                    used_bs = used_bs or getattr(h, "binary_search", False)
+                if used_bs:
+                    keys = [(ops.get(r0["opcode"]) if tab == "core" else r0["opcode"]) for r0 in t[tab]]
+                    bad_at = [i for i in range(1, len(keys)) if keys[i - 1] is None or keys[i] is None or keys[i - 1] >= keys[i]]
+                    chk.check(R2, not bad_at, inst + ":table-sorted",
+                              "%s uses a binary search but %s is not sorted by opcode: row %d (%s, %s) follows (%s, %s); %d out-of-order positions" % (
+                                  inst, static, bad_at[0] if bad_at else 0, t[tab][bad_at[0]]["opname"] if bad_at else "", keys[bad_at[0]] if bad_at else "",
+                                  t[tab][bad_at[0] - 1]["opname"] if bad_at else "", keys[bad_at[0] - 1] if bad_at else "", len(bad_at)), w)
             except Anchor as ex:
                 # not a linear search: accept a binary search on a table that is sorted by the key
                 try:
